@@ -493,12 +493,47 @@ func (c *c17) unit() *ssa.Function {
 		return nil
 	}
 	c.r.Analysed(FnName(fn))
+	// Correct rounding needs ONE operation on EXACT operands.  10^e is exact in float64 only for 0 ≤ e ≤ 22, so the
+	// quotient form a / 10^e is right for e = u+8 ≥ 0, and for e < 0 the product a · 10^(−e) is (defect F16: dividing
+	// by math.Pow10 of a negative exponent divides by an inexact 0.1, 0.001, …).  Each return is checked against the
+	// sign of u+8 that the conditions on its path establish.
+	lcu := NewLinCtx(c.p, fn)
+	e := lcu.Lin(fn.Params[1]).addConst(8)
 	for i, ret := range returnsOf(fn) {
-		ok, how := c.quotientOf(fn, ret.Results[0], fn.Params[0], fn.Params[1], nil)
-		if len(DomConds(ret.Block())) > 0 && ok {
-			ok, how = false, "the quotient is returned only on some paths (a branch selects this return)"
+		what := fmt.Sprintf("return #%d is the single correctly rounded operation float64(a) ÷ 10^(u+8)", i+1)
+		facts := lcu.FactsOf(MustCondsAtBlock(fn, ret.Block()))
+		nonneg := lcu.Entails(facts, e.scale(-1)) // −(u+8) ≤ 0
+		nonpos := lcu.Entails(facts, e)           // u+8 ≤ 0
+		v := ret.Results[0]
+		bo, isB := v.(*ssa.BinOp)
+		if !isB || !isFloat64(bo.Type()) {
+			c.r.Add("C17.unit", FnName(fn), what, ret.Pos(), false, exprString(v)+" is not a float64 quotient or product")
+			continue
 		}
-		c.r.Add("C17.unit", FnName(fn), fmt.Sprintf("return #%d is the single division float64(a) / 10^(u+8)", i+1), ret.Pos(), ok, how)
+		okA := exactFloatOfInt(bo.X, fn.Params[0]) || (bo.Op == token.MUL && exactFloatOfInt(bo.Y, fn.Params[0]))
+		pw := bo.Y
+		if bo.Op == token.MUL && exactFloatOfInt(bo.Y, fn.Params[0]) {
+			pw = bo.X
+		}
+		call, isP := stdCall(pw, "math.Pow10")
+		if !okA || !isP {
+			c.r.Add("C17.unit", FnName(fn), what, ret.Pos(), false, exprString(v)+" does not combine float64(a) with math.Pow10(…)")
+			continue
+		}
+		got := lcu.Lin(call.Call.Args[0])
+		if un, isU := call.Call.Args[0].(*ssa.UnOp); isU && un.Op == token.SUB {
+			got = lcu.Lin(un.X).scale(-1)
+		}
+		switch {
+		case bo.Op == token.QUO && linEq(got, e):
+			c.r.Add("C17.unit", FnName(fn), what, ret.Pos(), nonneg,
+				map[bool]string{true: "float64(a) / 10^(u+8) where u+8 ≥ 0: an exact divisor", false: "float64(a) / math.Pow10(u+8) is reached with u+8 possibly negative: the divisor is then an inexact 10^-k (Amount(2099999999999999).ToUnit(-9) = 20999999999999988, correctly rounded 20999999999999990)"}[nonneg])
+		case bo.Op == token.MUL && linEq(got, e.scale(-1)):
+			c.r.Add("C17.unit", FnName(fn), what, ret.Pos(), nonpos,
+				map[bool]string{true: "float64(a) · 10^-(u+8) where u+8 ≤ 0: an exact factor", false: "float64(a) · math.Pow10(-(u+8)) is reached with u+8 possibly positive: the factor is then an inexact 10^-k"}[nonpos])
+		default:
+			c.r.Add("C17.unit", FnName(fn), what, ret.Pos(), false, "exponent "+lcu.Format(got)+" with operator "+bo.Op.String()+" is neither a ÷ 10^(u+8) nor a · 10^-(u+8)")
+		}
 	}
 	if b := c.p.Func("", "(Amount).ToBCH"); b != nil {
 		c.r.Analysed(FnName(b))
